@@ -395,7 +395,7 @@ pub fn record_follow(output: &str) {
     let mut attempts = 0;
     while made < n_traj && attempts < n_traj * 200 {
         attempts += 1;
-        let class = robots::GEOMETRY_CLASSES[attempts % 7];
+        let class = robots::GEOMETRY_CLASSES[attempts % robots::GEOMETRY_CLASSES.len()];
         let mut p = robots::geometry(class, &mut r);
         p = robots::convention(p, r.gen_range(0..64), ["zero", "quarter", "random"][attempts % 3], &mut r);
         let stack_class = ["bare", "tool", "base+tool", "frame"][attempts % 4];
